@@ -122,6 +122,49 @@ static int test_wait_releases(void)
     return 0;
 }
 
+// ---- events: a notification is latched until one waiter has taken it (auto-reset); a wait blocks until then ---------------------------
+static struct event g_ev;
+static atomic_int g_ev_passed;
+static void ev_waiter(void* arg) { (void)arg; event_wait(&g_ev); atomic_fetch_add(&g_ev_passed, 1); }
+static int test_event(void)
+{
+    for (int rep = 0; rep < 4; ++rep) {
+        struct thread t;
+        // (a) notify first, wait later: the wait returns at once (latched) ...
+        event_init(&g_ev); atomic_store(&g_ev_passed, 0);
+        event_notify_all(&g_ev);
+        thread_init(&t); thread_create(&t, ev_waiter, 0);
+        for (int spin = 0; spin < 1000 && !atomic_load(&g_ev_passed); ++spin) msleep(1);
+        if (!atomic_load(&g_ev_passed)) { printf("ORACLE event-notification-before-the-wait-was-lost rep=%d\n", rep); event_notify_all(&g_ev); thread_join(&t); return 1; }
+        thread_join(&t);
+        // ... and has consumed the notification: the next wait blocks until the next notification
+        atomic_store(&g_ev_passed, 0);
+        thread_init(&t); thread_create(&t, ev_waiter, 0);
+        msleep(40);
+        if (atomic_load(&g_ev_passed)) { printf("ORACLE event-wait-returned-without-a-notification rep=%d\n", rep); thread_join(&t); return 1; }
+        event_notify_all(&g_ev);
+        for (int spin = 0; spin < 1000 && !atomic_load(&g_ev_passed); ++spin) msleep(1);
+        if (!atomic_load(&g_ev_passed)) { printf("ORACLE event-wait-not-released-by-notify rep=%d\n", rep); return 1; }
+        thread_join(&t);
+        event_destroy(&g_ev);
+    }
+    printf("ok event-latched-auto-reset\n");
+    return 0;
+}
+
+// ---- clock: a sleep lasts at least (about) as long as asked, and toc measures it -----------------------------------------------------
+static int test_clock(void)
+{
+    struct clock c;
+    clock_init(&c);
+    clock_tic(&c);
+    clock_sleep_ms(0, 30.0f);
+    double ms = clock_toc_ms(&c);
+    if (ms < 20.0 || ms > 5000.0) { printf("ORACLE clock-sleep-30ms-measured-as %.3f ms\n", ms); return 1; }
+    printf("ok clock-sleep-and-toc\n");
+    return 0;
+}
+
 int main(void)
 {
     alarm(120);
@@ -131,5 +174,7 @@ int main(void)
     bad |= test_notify_all();
     bad |= test_mutex();
     bad |= test_wait_releases();
+    bad |= test_event();
+    bad |= test_clock();
     return bad ? 1 : 0;
 }
